@@ -377,8 +377,25 @@ func init() {
 		return nil
 	})
 
+	// sync.Pool. Pools declared by the program under test (package-level variables of the metallb module)
+	// are modelled: Put keeps the item, Get hands back the most recently kept item or a fresh one (one
+	// nondeterministic bit per path - both are behaviours of the real pool). Library pools always hand out
+	// a fresh item (assumption: the library resets what it pools).
+	ownPool := func(in *Interp, p *Value) bool {
+		for g, cell := range in.globals {
+			if cell == p && g.Pkg != nil && strings.HasPrefix(g.Pkg.Pkg.Path(), "go.universe.tf/metallb") {
+				return true
+			}
+		}
+		return false
+	}
 	reg("(*sync.Pool).Get", func(in *Interp, fr *frame, a []Value) Value {
 		p := a[0].(*Value)
+		if kept := in.pools[p]; len(kept) > 0 && ownPool(in, p) && in.pathBit("syncpool-reuse") {
+			x := kept[len(kept)-1]
+			in.pools[p] = kept[:len(kept)-1]
+			return x
+		}
 		st := (*p).(Struct)
 		newFn := st[len(st)-1]
 		if isNilFunc(newFn) {
@@ -386,7 +403,16 @@ func init() {
 		}
 		return in.call(fr, 0, newFn, nil)
 	})
-	reg("(*sync.Pool).Put", func(in *Interp, fr *frame, a []Value) Value { return nil })
+	reg("(*sync.Pool).Put", func(in *Interp, fr *frame, a []Value) Value {
+		p := a[0].(*Value)
+		if ownPool(in, p) {
+			if in.pools == nil {
+				in.pools = map[*Value][]Value{}
+			}
+			in.pools[p] = append(in.pools[p], a[1])
+		}
+		return nil
+	})
 
 	// io.Discard.ReadFrom: same Reader-contract behaviour as the library code, with a 1-byte scratch
 	// buffer instead of the pooled 8192-byte one (keeps symbolic read limits from fanning out).
